@@ -95,7 +95,7 @@ Init ==
               [] OTHER -> [Idle EXCEPT !.pc = "setup", !.rem = n.setup]]
   /\ W = [i \in 1..Len(Configs[cid].nodes) |-> <<>>]
   /\ place = <<>>
-  /\ ctr = [i \in 1..Len(Configs[cid].nodes) |-> [gen |-> 0, disc |-> 0, proc |-> 0, recv |-> 0, org |-> <<>>]]
+  /\ ctr = [i \in 1..Len(Configs[cid].nodes) |-> [gen |-> 0, disc |-> 0, proc |-> 0, recv |-> 0, org |-> <<>>, tsum |-> 0]]
 
 Step == steps' = steps + 1 /\ now' = now /\ cid' = cid
 
@@ -181,7 +181,7 @@ SinkTake(i) ==
      IN /\ d.r[1] = "item"
         /\ E' = r.E /\ tc' = r.tc
         /\ place' = [place EXCEPT ![d.r[2]] = <<"sink", i>>]
-        /\ ctr' = [ctr EXCEPT ![i].recv = @ + 1]
+        /\ ctr' = [ctr EXCEPT ![i].recv = @ + 1, ![i].tsum = @ + now]     \* tsum: sum of the reception instants (outcome checksum)
         /\ S' = [S EXCEPT ![i] = [@ EXCEPT !.toks = r.toks]]
   /\ UNCHANGED W /\ Step
 
@@ -522,13 +522,13 @@ F_C10_PushOutput == ~Urgent => \A i \in Nodes :
            \A k \in 1..Len(N(i).outs) : ~CanPut(E[N(i).outs[k]])
      /\ (N(i).type = "source" /\ S[i].pc = "wait") => \A k \in 1..Len(N(i).outs) : ~CanPut(E[N(i).outs[k]])
 
-\* Leg B for factories: the set of outcomes the design allows at the horizon (counters of every node, number of
-\* items in every edge), printed once per terminal state; the real run of the same configuration must be one of them
-Flat == [i \in 1..(4 * NN + NE) |->
-           IF i <= 4 * NN
-           THEN LET n == ((i - 1) \div 4) + 1 k == (i - 1) % 4 IN
-                CASE k = 0 -> ctr[n].gen [] k = 1 -> ctr[n].disc [] k = 2 -> ctr[n].proc [] OTHER -> ctr[n].recv
-           ELSE NInside(E[i - 4 * NN])]
+\* Leg B for factories: the set of outcomes the design allows at the horizon (counters of every node, the sum of the
+\* instants at which each sink received its items, number of items in every edge), printed once per terminal state; the real run of the same configuration must be one of them
+Flat == [i \in 1..(5 * NN + NE) |->
+           IF i <= 5 * NN
+           THEN LET n == ((i - 1) \div 5) + 1 k == (i - 1) % 5 IN
+                CASE k = 0 -> ctr[n].gen [] k = 1 -> ctr[n].disc [] k = 2 -> ctr[n].proc [] k = 3 -> ctr[n].recv [] OTHER -> ctr[n].tsum
+           ELSE NInside(E[i - 5 * NN])]
 ReportOutcome == (now = MaxT /\ ~Urgent) => PrintT(<<"F", cid, Flat>>)
 
 \* C20: finitely many actions per instant
